@@ -539,15 +539,14 @@ class _DiffEval:
         self.depth = 0
 
     def _helper(self, e, env):
-        """a call of a single-expression helper of the same module is evaluated on the values of its arguments"""
+        """a call of a plain helper function of the same module is executed on the values of its arguments (see _run)"""
         if self.prog is None or self.depth >= 3:
             return None
         sym = self.prog.callee(e, self.func)
         h = self.prog.func_of(sym) if sym else None
         if h is None or sym in self.prog.classes or h.module is not self.func.module or h.cls is not None or h.parent is not None:
             return None
-        body = [x for x in h.node.body if not (isinstance(x, ast.Expr) and isinstance(x.value, ast.Constant)) and not isinstance(x, ast.Pass)]
-        if len(body) != 1 or not isinstance(body[0], ast.Return) or body[0].value is None:
+        if h.node.args.vararg or h.node.args.kwarg or any(isinstance(n, (ast.Yield, ast.YieldFrom, ast.Await)) for n in h.own_nodes()):
             return None
         b = _bind_args(e, h)
         if b is None or set(b) != set(h.params()):
@@ -557,10 +556,40 @@ class _DiffEval:
         self.func, self.curr, self.prev = h, '', ''
         self.depth += 1
         try:
-            return ('value', self.eval(body[0].value, env2))
+            done, v = self._run(h.node.body, env2)
+            return ('value', v if done else 'NONE')
         finally:
             self.depth -= 1
             self.func, self.curr, self.prev = saved
+
+    def _run(self, stmts, env):
+        """execute the statements of a helper on abstract values (under ONE scenario every guard has one outcome, so this is
+        plain sequential execution) -> (returned?, value); env is updated in place.  Accepted statements: docstring / pass /
+        logging, assignment of a plain local, if / elif / else, return; anything else is not understood."""
+        for s in stmts:
+            if isinstance(s, ast.Pass) or (isinstance(s, ast.Expr) and (isinstance(s.value, ast.Constant) or _is_log_call(s.value))):
+                continue
+            if isinstance(s, ast.Return):
+                return True, ('NONE' if s.value is None else self.eval(s.value, env))
+            if isinstance(s, ast.If):
+                done, v = self._run(s.body if self.truth(self.eval(s.test, env)) else s.orelse, env)
+                if done:
+                    return True, v
+                continue
+            if isinstance(s, (ast.Assign, ast.AnnAssign)) and s.value is not None:
+                tg = s.targets if isinstance(s, ast.Assign) else [s.target]
+                if all(isinstance(t, ast.Name) for t in tg):
+                    try:
+                        v = self.eval(s.value, env)
+                    except Unsupported:
+                        v = 'UNK'  # only a problem when the value is read
+                    for t in tg:
+                        env[t.id] = v
+                    continue
+            if isinstance(s, ast.Raise):
+                raise _Err(f'{norm(s)[:60]} in helper {self.func.qname}')
+            raise Unsupported(f'statement {norm(s)[:60]} in helper {self.func.qname}')
+        return False, 'NONE'
 
     def truth(self, v):
         if v is True or v is False:
@@ -2043,6 +2072,10 @@ VARIANTS = [
       'known = prev.get(k)\n        if known is not None and curr[k] in known:\n            continue\n        log.debug("version of %s changed", k)\n        diff.append(k)', None),
     V('_diff as comprehension', 'N', _S, '_diff', 'diff = []\n    for k in curr:\n        if k not in prev or prev[k].count(curr[k]) == 0:\n            diff.append(k)\n        pass\n    return diff',
       'return [k for k, v in curr.items() if not (k in prev and v in prev[k])]', None),
+    V('_diff as comprehension over a helper with an early return', 'N', _S, '_diff', 'def _diff(curr, prev):\n    diff = []\n    for k in curr:\n        if k not in prev or prev[k].count(curr[k]) == 0:\n            diff.append(k)\n        pass\n    return diff',
+      'def _is_persisted(name, version, prev):\n    """is it"""\n    if name not in prev:\n        return False\n    return version in prev[name]\n\n\ndef _diff(curr, prev):\n    return [name for name, version in curr.items() if not _is_persisted(name, version, prev)]', None),
+    V('_diff helper with an early return treats a new name as persisted', 'B', _S, '_diff', 'def _diff(curr, prev):\n    diff = []\n    for k in curr:\n        if k not in prev or prev[k].count(curr[k]) == 0:\n            diff.append(k)\n        pass\n    return diff',
+      'def _is_persisted(name, version, prev):\n    if name not in prev:\n        return True\n    return prev[name].count(version) > 0\n\n\ndef _diff(curr, prev):\n    return [name for name, version in curr.items() if not _is_persisted(name, version, prev)]', 'R-C15-2'),
     # ---- R-C15-3
     V('previous[2] paired with latest[0]', 'B', _S, 'build', 'dalg = _diff(latest[0], previous[1])', 'dalg = _diff(latest[0], previous[2])', 'R-C15-3'),
     V('value versions never compared', 'B', _S, 'build', 'dv = _diff(latest[2], previous[3])', 'dv = _diff(latest[1], previous[2])', 'R-C15-3'),
